@@ -84,6 +84,14 @@ def run(ctx):
             a, b = list(ids.values())[:2]
             res.violation("identifier:marked-parameter", f"(embedder, leaf value, producing task) {sg}: identifier {a['id'][:16]} when the parameter's identifier "
                           f"is requested '{a['hist']}', {b['id'][:16]} when '{b['hist']}'", {"marked": [a, b]})
+    # ... and equals the identifier that the pinned commit gives to that (embedder, value, producing task) (pins/marked.json)
+    mpins = json.loads((VERIF / "pins" / "marked.json").read_text()) if (VERIF / "pins" / "marked.json").exists() else {}
+    for sg, ids in msig.items():
+        want = mpins.get(sg)
+        for r in ids.values():
+            if want is not None and [r["id"], r["raw"]] != want:
+                res.violation("pinned:marked-parameter", f"(embedder, leaf value, producing task) {sg}, requested '{r['hist']}': identifier {r['id'][:16]} "
+                              f"(raw {r['raw'][:16]}), pinned {want[0][:16]} (raw {want[1][:16]})", {"marked": [r], "pinned": want})
     requests_marked = sum(len(rows) for rows in marked)
     for d, o in zip(descs, reloaded):
         for p in o["problems"]:
